@@ -298,7 +298,7 @@ def hook(sc, cfg):
 
 def run(ctx):
     _CTX[0] = ctx
-    C.proof_step(ctx, ['engine.io delivers one transport\'s messages sequentially and contains handler exceptions'])
+    C.proof_step(ctx, ['engine.io delivers one transport\'s messages sequentially (assumed by the model; one overlapping schedule is explored on the real servers by c05_overlap, oracle only) and contains handler exceptions'])
     S.run_cases(ctx, PROFILE, ctx.scale(120, 2500), 40, oracle=oracle, nontrivial=nontrivial, gen_hook=hook)
     # an event that arrives while the same client's disconnect is in progress (asyncio, all release orders)
     from .. import sched_async
